@@ -57,7 +57,7 @@ def race_family():
 
 
 def BOUNDS(tier):
-    return {'quick': {'strides': dict(FAMILIES), 'deviations': 1},
+    return {'quick': {'strides': dict(FAMILIES), 'deviations': '1; 2 on programs with <= 12 activations'},
             'thorough': {'strides': {k: max(1, v // 6) for k, v in FAMILIES}, 'deviations': '1; 2 on programs with <= 25 activations'}}[tier]
 
 
@@ -134,7 +134,7 @@ def explore_case(program, tier):
         return rep
     pts, skipped = F.cancel_points(ctx0, bounds)
     rep['counters']['boundaries_skipped_internal'] = skipped
-    two = tier == 'thorough' and len(ctx0.trace) <= 25
+    two = len(ctx0.trace) <= (25 if tier == 'thorough' else 12)
     for k, v in pts:
         f1 = {'k': k, 'kind': 'cancel', 'victim': v, 'token': 'x'}
         if two:
